@@ -137,7 +137,10 @@ class Registry:
 def ind_data(ind, n_ieq, n_eq=0):
     G = np.asarray(ind.G, dtype=float).ravel() if n_ieq else np.zeros(0)
     H = np.asarray(ind.H, dtype=float).ravel() if n_eq else np.zeros(0)
+    from pymoo.core.individual import calc_cv
+    cv_calc = float(np.asarray(calc_cv(G=G if n_ieq else None, H=H if n_eq else None)).ravel()[0]) if (n_ieq or n_eq) else 0.0
     return {"X": enc(np.asarray(ind.X, dtype=float)), "F": enc(np.asarray(ind.F, dtype=float)), "CV": float(ind.CV[0]).hex(), "feas": bool(ind.FEAS[0]),
+            "CV_calc": float(cv_calc).hex(),          # total violation recomputed from the evaluated G and H (the stored CV may be stale)
             "G": enc(G), "H": enc(H), "C": enc(np.concatenate((np.maximum(G, 0), np.absolute(H))))}
 
 
@@ -318,7 +321,21 @@ def pdom(a, b):
     return bool(np.all(a <= b) and np.any(a < b))
 
 
+def stale_cv(obs):
+    """the stored total violation / feasibility flag of every individual is the one of its evaluated constraint values"""
+    for i, d in obs["data"].items():
+        if "CV_calc" not in d:
+            continue
+        cs, cc = float.fromhex(d["CV"]), float.fromhex(d["CV_calc"])
+        if cs != cc or bool(d["feas"]) != (cc <= 0):
+            return "stored constraint violation %r (feasible=%s) of individual %s differs from the violation %r of its evaluated constraints" % (cs, d["feas"], i, cc)
+    return None
+
+
 def oracle_c05(cfg, obs):
+    m = stale_cv(obs)
+    if m:
+        return "C05-stale-cv: " + m
     if not cfg["alg"].startswith("GDE3"):
         return None
     n = obs["pop_size"]
@@ -345,6 +362,9 @@ def oracle_c05(cfg, obs):
 
 
 def oracle_c06(cfg, obs):
+    m = stale_cv(obs)
+    if m:
+        return "C06-stale-cv: " + m
     if cfg["alg"] == "DE":
         return None
     n = obs["pop_size"]
@@ -374,6 +394,9 @@ def oracle_c06(cfg, obs):
 
 
 def oracle_c07(cfg, obs):
+    m = stale_cv(obs)
+    if m:
+        return "C07-stale-cv: " + m
     n = obs["pop_size"]
     ga = cfg["alg"] in ("GA", "EA")
     size = None
@@ -397,6 +420,9 @@ def oracle_c07(cfg, obs):
 
 
 def oracle_c08(cfg, obs):
+    m = stale_cv(obs)
+    if m:
+        return "C08-stale-cv: " + m
     for G in obs["gens"]:
         post = G["post"]; D = {i: _d(obs, i) for i in post}
         opt = G["opt"]
